@@ -237,6 +237,7 @@ func (p c08) Run(c *core.Ctx) {
 	r := c.R
 	cfg := gen.DefaultFlow()
 	cfg.StartNotFirst = true // (the first node of the first reader starts the dialogue, however the nodes are split)
+	cfg.DupTitles = true     // a title defined twice, in the same or in another reader: the first definition is the node of that name in every layout and split
 	cfg.MaxDepth = 6
 	if c.Idx%2 == 0 {
 		cfg.WOptions, cfg.WIf = 26, 22
